@@ -118,7 +118,7 @@ class Coherence:
                                 # __array_function__ is materialised at the dispatch call
                                 m = frozenset([g.params[0]]) if (g.params and f.params and f.params[0] in st) else frozenset()
                             elif g.qual in priv:
-                                m = self._map_state(call, g, st, f)
+                                m = self._map_state(call, g, st, f, tm)
                             else:
                                 continue
                             cur = new[g.qual]
@@ -145,11 +145,19 @@ class Coherence:
     def _with_fields(self, e):
         return frozenset(e) | FIELD_MAT
 
-    def _map_state(self, call, g, st, caller):
+    def _map_state(self, call, g, st, caller, tm=None):
         m = set()
         params = list(g.params)
         if isinstance(call.func, ast.Attribute) and g.cls is not None and not g.is_staticmethod and params:
             rp = path_of(call.func.value)
+            if rp is not None and rp in st:
+                m.add(params[0])
+            params = params[1:]
+        elif isinstance(call.func, ast.Name) and g.cls is not None and not g.is_staticmethod and params and tm is not None \
+                and tm.a[0].k == "call" and tm.a[0].a[0].k == "global" and tm.a[0].a[0].a[0] == "getattr" and tm.a[0].a[1]:
+            # a bound method fetched with getattr(obj, name) and called through a local: the receiver is obj
+            obj = tm.a[0].a[1][0]
+            rp = obj.a[0] if obj.k == "param" else None
             if rp is not None and rp in st:
                 m.add(params[0])
             params = params[1:]
@@ -299,9 +307,13 @@ def report(coh, rule_prefix, funcs=None, only_rules=None):
     ctx = coh.ctx
     sites = coh.compute()
     fq = None if funcs is None else {f if isinstance(f, str) else f.qual for f in funcs}
+    core = {g.qual for g in coh.ts.core_materialisers()}
     for s in sites:
         f = s["func"]
         if fq is not None and f.qual not in fq:
+            continue
+        if f.qual in core and f.params and s["path"].split(".")[0] == f.params[0]:
+            # the materialisation step itself: reading the receiver's lazy geometry is what it is for
             continue
         if only_rules and s["rule"] not in only_rules:
             continue
